@@ -96,7 +96,10 @@ class Contract:
         self.options = dict(getattr(cls, 'options', {}))
         self.witness = _plain(getattr(cls, 'witness', None))
         self.hints = _plain(getattr(cls, 'hints', None))
-        self.at_return = _plain(getattr(cls, 'at_return', None))   # ghost code over the function's locals, run at each return of the unit     # ghost code run after requires is assumed (lemma instances)
+        self.at_return = _plain(getattr(cls, 'at_return', None))
+        # ghost cuts: [(source text the statement starts with, function over the unit's locals)]: after that statement each
+        # returned clause is first proved (obligation kind 'cut') and then assumed -- the sidecar form of an assert
+        self.cuts = [(t_, _plain(f_)) for (t_, f_) in getattr(cls, 'cuts', [])]   # ghost code over the function's locals, run at each return of the unit     # ghost code run after requires is assumed (lemma instances)
         self.func = getattr(cls, 'func', None)        # optional explicit function object getter
         self.verify = getattr(cls, 'verify', True)    # False: assumed contract (external / trusted)
         self.assumed_reason = getattr(cls, 'assumed_reason', None)
